@@ -285,7 +285,7 @@ void op_sign(const Case& c, TaskCtx& t, Outcome& o) {
       CHECK_FAIL("C09.opened_data_insufficient", std::string(p.name) + ": verifier cannot reconstruct the opened parties (rejects)");
     // opened-party data only: the signature is exactly the model's, whose construction writes nothing else
     if (ms != sig)
-      CHECK_FAIL("C09.layout_differs_from_model", std::string(p.name) + ": signature bytes differ from the reference construction");
+      CHECK_FAIL("C03.differs_from_specification", std::string(p.name) + ": signature bytes differ from the reference construction (noted by the C09 check, decided by C03)");
   }
   // ---- C13 advertised maximum
   if (has_chk(c, "c13")) {
